@@ -215,9 +215,7 @@ func scenarioC14(rc *RunCtx) {
 				nsig++
 			} else {
 				k = []int{opHelper, opName, opLog, opLogf, opFailed, opContext, opCleanup, opContext, opCleanup, opFailed}[t.Pick("c14.op", 10)]
-				if r.lateJoin && g > 0 && k == opContext {
-					k = opCleanup // during the cleanup phase Context() legitimately returns a different (cancelled) context
-				}
+
 			}
 			ops = append(ops, k)
 		}
@@ -322,9 +320,32 @@ func scenarioC14(rc *RunCtx) {
 			rc.V(viol("C14.R3", "context-live-in-cleanup", "section %d: a context was still live while cleanups ran", i))
 			return
 		}
-		// R3c: one and the same context, live during the call, cancelled afterwards
+		// R3c: one and the same context, live during the call, cancelled afterwards. With goroutines running into the
+		// cleanup phase (lateJoin) a Context() call may legitimately return an already cancelled context; but every context
+		// that was live when it was handed out is THE context of the invocation.
+		var live []context.Context
+		for _, l := range inv.logs {
+			for _, o := range l {
+				if o.K == opContext && o.CtxLive {
+					live = append(live, o.OutCtx)
+				}
+			}
+		}
+		for _, c := range live {
+			if c != live[0] && rc.Verbose {
+				for g, l := range inv.logs {
+					for _, o := range l {
+						rc.Tracef("  section %d g%d %s call=%d ret=%d live=%v ctx=%p", i, g, opNames[o.K], o.Call, o.Ret, o.CtxLive, o.OutCtx)
+					}
+				}
+			}
+			if c != live[0] {
+				rc.V(viol("C14.R3", "two-contexts", "section %d: goroutines observed different live contexts within one invocation", i))
+				return
+			}
+		}
 		for _, c := range inv.ctxs {
-			if c != inv.ctxs[0] {
+			if !r.lateJoin && c != inv.ctxs[0] {
 				rc.V(viol("C14.R3", "two-contexts", "section %d: goroutines observed different contexts within one invocation", i))
 				return
 			}
@@ -339,9 +360,12 @@ func scenarioC14(rc *RunCtx) {
 		nctx := 0
 		for _, l := range inv.logs {
 			for _, o := range l {
-				if o.K == opContext && !o.CtxLive {
+				if o.K == opContext && !o.CtxLive && (!r.lateJoin || o.G == 0) {
 					rc.V(viol("C14.R3", "context-dead-during-call", "section %d: T.Context() returned a cancelled context during the call", i))
 					return
+				}
+				if o.K == opContext && r.lateJoin {
+					continue // the sequential model's "one context" does not span the cleanup phase
 				}
 				out := c14Out{B: o.OutBool}
 				if o.K == opContext {
